@@ -772,7 +772,7 @@ func TestC13(t *testing.T) {
 	// (2) histories
 	okTexts := []string{"(+ 1 2)", "(def x 5)\n", "foo", "[1 2 3]", "{a = 1}", "x", "(a b) c", `"str"`, "12", "1e5", "a-", "(f 'c')", "// c", "/* b */ q"}
 	badTexts := []string{")", `"\q"`, "(a b))", "1abc", "'ab'", "~", "{", "#"}
-	unfinished := []string{"(a b", `"abc`, "`raw", "/* open", "[1 2", "(a (b", "{x = "}
+	unfinished := []string{"(a b", `"abc`, "`raw", "/* open", "[1 2", "(a (b", "{x = ", "~(", "^[1 2", "%`abc", "^ /* open", "%(a b", "~@(x", "^{a", "%\"abc", "(a %", "^(a ~", "[~@"}
 	probes := []string{"-1", "-1.5 2", "-x", "+3", "(f -2)", "a b", "-7)", "e-3", "1e-3", "(- 1 2)", "-.5", "x:", ":= 2", "b", "\"s\"", "(g 1)", "-Inf", "1 -1"}
 	p.rapidSub("history", ev.Scale(3000, 300000), func(t *rapid.T) {
 		n := rapid.IntRange(0, 6).Draw(t, "nsteps")
@@ -790,7 +790,23 @@ func TestC13(t *testing.T) {
 				nt = true
 				labels = append(labels, "failed-parse")
 			case "abandon":
-				s = histStep{rapid.SampledFrom([]string{"abandon", "eval", "read"}).Draw(t, "abVia"), rapid.SampledFrom(unfinished).Draw(t, "unf")}
+				utext := rapid.SampledFrom(unfinished).Draw(t, "unf")
+				if rapid.Bool().Draw(t, "genUnf") {
+					// an unfinished prefix of a generated text
+					full := genLexText(t)
+					var cuts []int
+					for i := 1; i < len(full); i++ {
+						if utf8.RuneStart(full[i]) {
+							if u, _ := scanPrefix(full[:i]); u {
+								cuts = append(cuts, i)
+							}
+						}
+					}
+					if len(cuts) > 0 {
+						utext = full[:cuts[rapid.IntRange(0, len(cuts)-1).Draw(t, "ucut")]]
+					}
+				}
+				s = histStep{rapid.SampledFrom([]string{"abandon", "eval", "read"}).Draw(t, "abVia"), utext}
 				nt = true
 				labels = append(labels, "abandoned-parse")
 			}
